@@ -91,7 +91,8 @@ def gen_case(r, idx, kind):
     budget = [r.choice([2000, 30000, 120000])]
     nsrc = r.weighted([(1, 5), (2, 2), (3, 1)])
     c.srcs = {}
-    t0 = 1000000000 + r.below(500000000)
+    # modification times: mostly around 2001..2017, sometimes beyond 2^31 seconds (2038), near 2^32, or close to the epoch
+    t0 = r.weighted([(1000000000 + r.below(500000000), 6), (2147483648 + r.below(1000000000), 2), (4294967296 - 50000 + r.below(40000), 1), (r.below(1000), 1)])
     for _ in range(nsrc):
         nm = r.choice(TOPNAMES)
         if nm not in c.srcs:
@@ -597,6 +598,28 @@ def fault_part(ctx, real, quick):
                 problems.append((case, "%s: g and last copied" % h.decode(), "g: %s last: %s; stderr tail %r" % (str(gcopy)[:60], str(lcopy)[:60], e[-200:]),
                                  "files that follow two refused entries with long paths were not copied to %s" % h.decode())); break
         shutil.rmtree(root, ignore_errors=True)
+    # (f) the dispatcher is slow between testing "is there room" and going to sleep (pthread_cond_wait delayed by a shim):
+    #     the completion of a copy must not be missed - with -f 1 the next target would never be started
+    shim = os.path.join(ctx.scratch, "slowcondwait.so")
+    brc, _ = vlib.sh(["gcc", "-shared", "-fPIC", "-O1", os.path.join(vlib.VERIF, "harness", "slowcondwait.c"), "-ldl", "-o", shim])
+    if brc == 0:
+        plain = pcpeng.PcpReal(ctx, san=False, tag="pcpplain")           # LD_PRELOAD and the sanitizer runtime do not mix
+        for rep in range(1 if quick else 3):
+            root = os.path.join(base, "cw%d" % rep)
+            tree = ("D", 0o755, 900000000, {b"f": ("F", 0o644, 1000000000, b"payload %d\n" % rep * 200)})
+            for h in HOSTS:
+                tree = put(tree, [h], ("D", 0o755, 900000000, {b"dst": ("D", 0o755, 900000000, {})}))
+            pcpeng.materialize(tree, root)
+            rc, o, e = plain.run(["-Rpcptest", "-f", "1", "-w", ",".join(h.decode() for h in HOSTS), b"f", b"dst"], prog="pdcp", cwd=root, timeout=40,
+                                 env={"LD_PRELOAD": shim, "SLOWCONDWAIT_MS": "700"})
+            nruns += 1
+            case = {"kind": "pdcp -f 1 f dst with pthread_cond_wait delayed by 0.7 s", "hosts": [h.decode() for h in HOSTS]}
+            after = pcpeng.snapshot(root)
+            missing = [h.decode() for h in HOSTS if (lookup(after, [h, b"dst", b"f"]) or (None,) * 4)[3] != tree[3][b"f"][3]]
+            if rc == -999 or missing:
+                problems.append((case, "f copied to every target, pdcp ends", "exit %s, not copied to %s" % (rc, missing),
+                                 "pdcp -f 1 %s: targets %s never got their copy (the completion of an earlier copy was missed by the dispatcher)" % ("hangs" if rc == -999 else "ends", missing)))
+            shutil.rmtree(root, ignore_errors=True)
     return nruns, problems
 
 
